@@ -319,12 +319,16 @@ func (obj *Package) SetIfHas(name string, value Object, private bool) (vv *VarVa
 			} else {
 				vv.Val = value
 			}
-			for _, u := range obj.Users {
-				u.mu.Lock()
-				if _, has := u.vars[name]; !has {
-					u.vars[name] = vv
+			// Only an exported variable of this package is visible in the
+			// packages using this one.
+			if vv.Export && vv.Pkg == obj {
+				for _, u := range obj.Users {
+					u.mu.Lock()
+					if _, has := u.vars[name]; !has {
+						u.vars[name] = vv
+					}
+					u.mu.Unlock()
 				}
-				u.mu.Unlock()
 			}
 		}
 	}
